@@ -167,7 +167,7 @@ end
 
 /-- whole-string decode: exactly one item, nothing left over -/
 def decodeAll (bs : Bytes) : Option Item :=
-  match decode (bs.length + 1) bs with
+  match decode (2 * bs.length + 2) bs with
   | some (x, []) => some x
   | _ => none
 
